@@ -468,7 +468,7 @@ func c19CancelledOwner(storeTo int) {
 		}
 	}
 	slow := 0
-	if took > time.Second {
+	if took > 1700*time.Millisecond { // (a call that joins a dead flight waits for the whole NetworkHeadRequestTimeout, 2 s)
 		slow = 1
 	}
 	emit("C19 kind=cancelledowner store=%d => first=%s head=%s reqs=%d slow=%d", storeTo, errs(err0), res, nreq, slow)
